@@ -5,7 +5,7 @@
    coq/Extract/Extract.v extracts. *)
 From Coq Require Import ZArith List.
 From Coq Require Extraction ExtrOcamlBasic.
-From BM Require Import Model.Layout Model.View Model.Spec Model.Iter Model.Rebase Model.Assign Model.Compare Model.Asserts.
+From BM Require Import Model.Layout Model.View Model.Spec Model.Iter Model.Rebase Model.Assign Model.Compare Model.Asserts Model.AssertsRecv.
 Extraction Language OCaml.
 Extraction "model.ml"
   mk_layout root_view run_ops apply_op dom_op exec_op
@@ -20,4 +20,6 @@ Extraction "model.ml"
   v_broadcasted v_index x_from_linear x_to_linear x_next_canonical x_prev_canonical x_intersection x_eq l_call
   a_ext asrt_observe nz_observe asrt_index asrt_brackets abort_level asrt_sliced asrt_sliced_nullbase
   asrt_bm asrt_plain asrt_op nz_op checks asserts_along g_apply g_run g_index g_brackets
-  asrt_it_diff asrt_it_eq asrt_it_cmp asrt_e_cmp asrt_e_make_plain asrt_assign numel_eq exts_eq view_kind g_assign.
+  asrt_it_diff asrt_it_eq asrt_it_cmp asrt_e_cmp asrt_e_make_plain asrt_assign numel_eq exts_eq view_kind g_assign
+  ov_of ov_asrt ov_next ov_first first_checked first_result g_entry abort_level_entry g_brackets_r
+  asrt_elements_at elements_at_idx asrt_elements_at_all g_elements_at.
